@@ -603,7 +603,12 @@ func (s *serverStream) setHeader(md metadata.MD, send bool) error {
 	toHeaders(md, h, "")
 
 	if send {
-		s.w.WriteHeader(http.StatusOK)
+		// The headers are final from here on. They are not handed to net/http
+		// yet (w.WriteHeader): that would not put them on the wire either -
+		// they leave with the first message or the trailer - but it would stop
+		// net/http from answering "100 Continue" when the handler begins to
+		// receive, and a client that waits for that answer before it sends
+		// its request body (Expect: 100-continue) would hear nothing at all.
 		s.headersSent = true
 	}
 
